@@ -534,6 +534,13 @@ class Resource:
         raise NotImplementedError(self.get_quota_available_bytes)
 
 
+def _text_or_none(el: Optional[ET.Element]) -> Optional[str]:
+    """Text of a property element; None when the property is being removed."""
+    if el is None:
+        return None
+    return el.text
+
+
 class Property:
     """Handler for listing, retrieving and updating DAV Properties."""
 
@@ -637,7 +644,7 @@ class DisplayNameProperty(Property):
         el.text = resource.get_displayname()
 
     async def set_value(self, href, resource, el):
-        resource.set_displayname(el.text)
+        resource.set_displayname(_text_or_none(el))
 
 
 class GetETagProperty(Property):
@@ -856,7 +863,7 @@ class RefreshRateProperty(Property):
         el.text = resource.get_refreshrate()
 
     async def set_value(self, href, resource, el):
-        resource.set_refreshrate(el.text)
+        resource.set_refreshrate(_text_or_none(el))
 
 
 LOCK_SCOPE_EXCLUSIVE = "{DAV:}exclusive"
@@ -1452,7 +1459,7 @@ class CommentProperty(Property):
         el.text = resource.get_comment()
 
     async def set_value(self, href, resource, el):
-        resource.set_comment(el.text)
+        resource.set_comment(_text_or_none(el))
 
 
 class Backend:
